@@ -285,6 +285,55 @@ func TestVerifC09H(t *testing.T) {
 	if vh.MyShard(len(cfgs) + len(crowds)) {
 		c09Magnitudes(r)
 	}
+	if vh.MyShard(len(cfgs) + len(crowds) + 1) {
+		c09Everyone(r)
+	}
+}
+
+// c09Everyone: every address of a whole network arrives once, then once more: "a new client
+// starts with a full burst" and "a client is never admitted more than its burst" for each of
+// them, whoever came before. Half a million clients make it all but certain that two of them
+// meet wherever the table of buckets is keyed by less than the address (a 32-bit digest of it:
+// about 30 pairs among 2^19 addresses).
+func c09Everyone(r *vres.Report) {
+	start := time.Now()
+	var evals int64
+	const bits = 19 // 10.0.0.0/13
+	refusedNew, admittedTwice := 0, 0
+	firstNew, firstTwice := "", ""
+	s := vrt.Run(vrt.Options{Horizon: 1 << 30}, func(s *vrt.Sched) {
+		rl := NewTokenBucketRateLimiter(1, time.Hour)
+		addr := func(i int) string { return fmt.Sprintf("10.%d.%d.%d", i>>16&255, i>>8&255, i&255) }
+		for i := 0; i < 1<<bits; i++ {
+			evals++
+			if !rl.Allow(addr(i)) {
+				refusedNew++
+				if firstNew == "" {
+					firstNew = addr(i)
+				}
+			}
+		}
+		for i := 0; i < 1<<bits; i++ {
+			evals++
+			if rl.Allow(addr(i)) {
+				admittedTwice++
+				if firstTwice == "" {
+					firstTwice = addr(i)
+				}
+			}
+		}
+	})
+	if s.Verdict.Kind != vrt.OK {
+		r.Violate("C09/everyone/"+s.Verdict.Kind.String(), s.Verdict.Detail, 1, nil)
+	}
+	if refusedNew > 0 {
+		r.Violate("C09/isolation-broken/new-client-refused", fmt.Sprintf("max_tokens=1, refill 1h, every address of 10.0.0.0/13 arrives once: %d of them were refused on their first request (the first: %s) - a client that had never been seen found its burst spent by somebody else", refusedNew, firstNew), 1, map[string]interface{}{"engine": "H", "test": "TestVerifC09H", "part": "everyone"})
+	}
+	if admittedTwice > 0 {
+		r.Violate("C09/burst-bound-exceeded/everyone", fmt.Sprintf("max_tokens=1, refill 1h, every address of 10.0.0.0/13 arrives twice at the same instant: %d of them were admitted twice (the first: %s)", admittedTwice, firstTwice), 1, map[string]interface{}{"engine": "H", "test": "TestVerifC09H", "part": "everyone"})
+	}
+	r.AddScenario(vres.Scenario{Name: "limiter-every-address-of-a-network", Engine: "H", Executions: 1, States: 1 << bits, Transitions: evals, Outcomes: 1,
+		Bound: "max_tokens 1, refill 1h: each of the 524288 addresses of 10.0.0.0/13 once (must be admitted), then each once more (must be refused)", Exhaustive: true, Extra: map[string]interface{}{"wall_s": time.Since(start).Seconds()}})
 }
 
 // c09Magnitudes: the statement's idle clause for bursts of large magnitude (max_tokens has no
